@@ -26,7 +26,7 @@ func init() {
 		Rule: "1-4 blocking operations (request, observe registration, observation cancel, ping, confirmable one-way write) on one real connection (UDP, DTLS shim, TCP, TLS shim; limiter 0/1) against a peer that is silent, sends garbage, acknowledges without answering, stalls the stream (bounded send buffer, never reads) or stalls the handshake; the interruption (context cancel, deadline, local Close from 1-3 goroutines, peer FIN / reset) lands wherever the tape puts it; " +
 			"non-trivial = an operation was still blocked when the interruption came; distinct = distinct event-log hash",
 		Scenarios: []Scenario{{Name: "S-LIVE/client", Weight: 1, Run: c09Run}},
-		Quick:     60000,
+		Quick:     200000,
 		Thorough:  3000000,
 		Assume: []string{
 			"bounded delay D = one tick interval (4 s) + 1 s of simulated time after the interrupting event (for a deadline: after the deadline), with one housekeeping tick in between and nothing further delivered",
